@@ -20,7 +20,6 @@ from typing import Tuple
 from collections.abc import Hashable, Callable
 
 import numpy as np
-import igraph
 
 from ..core.cache import Cached
 from ..core import GeoNetwork, GeoGrid
@@ -250,11 +249,12 @@ class ClimateNetwork(GeoNetwork):
         grid = GeoGrid.Load(filename_grid)
 
         #  Load similarity measure
-        similarity_measure = np.load(filename_similarity_measure)
+        similarity_measure = np.load(filename_similarity_measure,
+                                     allow_pickle=True)
 
         #  Load to igraph Graph object
-        graph = igraph.Graph.Read(f=filename_network, format=fileformat,
-                                  *args, **kwds)
+        graph = GeoNetwork._read_graph(filename_network, fileformat,
+                                       *args, **kwds)
 
         #  Extract adjacency matrix
         A = np.array(graph.get_adjacency(type=2).data)
@@ -267,7 +267,9 @@ class ClimateNetwork(GeoNetwork):
             node_weights = None
 
         #  Create ClimateNetwork instance
+        #  The threshold is not stored: use the one reproducing the link density
         net = ClimateNetwork(grid=grid, similarity_measure=similarity_measure,
+                             link_density=np.nan_to_num(graph.density()),
                              directed=graph.is_directed(),
                              silence_level=silence_level)
         net.adjacency = A
